@@ -77,6 +77,12 @@ structure Cfg where
   against) and in the message server (whose result receives the portfolio) -/
   toParseVB : String
   toParseSrv : String
+  /-- genesis export (`IterateMigrateRecords` as called by `ExportGenesis`): the value flag whose records the walk skips,
+  and whether the walk can stop before the last record -/
+  gExportSkip : String
+  gExportStop : Bool
+  /-- genesis import: `InitGenesis` calls `SetMigrateRecord(record.From, record.To)` for every exported record -/
+  gImportSets : Bool
   deriving Repr, DecidableEq
 
 /-- the far-future bound that makes `NewPrefixUntilPairRange` cover every queue entry -/
@@ -122,7 +128,10 @@ def cfg : Cfg :=
     qByDelegator := Gen.C14.queueLoops.map (fun l => l.2.2.1) ==
                       ["UBDQueue[i].DelegatorAddress == from.String()", "redQueue[i].DelegatorAddress == from.String()"]
     toParseVB := (Gen.C14.toParseSites.lookup "ValidateBasic").getD ""
-    toParseSrv := (Gen.C14.toParseSites.lookup "MigrateAccount").getD "" }
+    toParseSrv := (Gen.C14.toParseSites.lookup "MigrateAccount").getD ""
+    gExportSkip := Gen.C14.genesisExportSkip
+    gExportStop := !(Gen.C14.genesisExportShape == ["From=key", "To=value", "append", "return false"])
+    gImportSets := Gen.C14.genesisImportCalls == ["SetMigrateRecord(record.From,record.To)"] }
 
 /-! ## state -/
 def bondedPool : Addr := 901
@@ -621,6 +630,25 @@ def migrateProg (c : Cfg) (stmts hs : List String) (s : State) (frm to : Addr) (
   if frm == to then .error .same else
   if c.sigRequired && !sigOk then .error .sig else
   runStmts c hs frm to s stmts
+
+/-! ### genesis export / import of the migrate module (`x/migrate/keeper/genesis.go`)
+
+`ExportGenesis` walks the record keys (`IterateMigrateRecords`), skips the values carrying one flag and emits (key address,
+value address) for the others; `InitGenesis` calls `SetMigrateRecord` for each exported record on the empty module store. -/
+
+def exportGenesis (c : Cfg) (s : State) : List (Addr × Addr) :=
+  let keep (p : Addr × Bool × Addr) : Bool :=
+    if c.gExportSkip == "ValuePrefixMigrateToFlag" then p.2.1
+    else if c.gExportSkip == "ValuePrefixMigrateFromFlag" then !p.2.1 else true
+  let rs := ((visible s.recs).filter keep).map (fun p => (p.1, p.2.2))
+  if c.gExportStop then rs.take 1 else rs
+
+def initGenesis (c : Cfg) (s : State) (rs : List (Addr × Addr)) : State :=
+  let s0 := { s with recs := [], dirFrom := [], dirTo := [] }
+  if c.gImportSets then rs.foldl (fun s r => setRecord c s r.1 r.2) s0 else s0
+
+/-- a chain restarted from its own exported genesis, as far as the migrate module is concerned -/
+def genesisRoundTrip (c : Cfg) (s : State) : State := initGenesis c s (exportGenesis c s)
 
 /-! ### signature (opaque hash / recover) -/
 /-- bytes signed, in the order the code hashes them (`Gen.C14.signedFields`) -/
